@@ -7,7 +7,7 @@ import copy
 from hypothesis import strategies as st
 from hypothesis.stateful import RuleBasedStateMachine, initialize, precondition, rule
 
-from props.c19 import plan_replacement
+from props.c19 import plan_replacement, with_downstream_input
 from vlib import build, gen, refsem, wellformed
 from vlib.env import cirbo_core, UuidStream
 from vlib.runner import Sub, Violation
@@ -230,8 +230,12 @@ class Interp:
                     if plan is None or plan.get('too_wide'):
                         raise core.cexc.ReplaceSubcircuitError()
                     rep = plan['rep']
-                    sub = build.build({'inputs': rep['inputs'], 'gates': rep['gates'], 'outputs': rep['outputs']})
                     im, om = dict(plan['inputs_mapping']), dict(plan['outputs_mapping'])
+                    if op.get('downstream'):
+                        rep = with_downstream_input(nl, plan['S'], plan['I'], plan['need_out'], rep, im, om) or rep
+                    sub = build.build({'inputs': rep['inputs'], 'gates': rep['gates'], 'outputs': rep['outputs']})
+                    if op.get('unmark'):
+                        sub.set_outputs(list(rep['outputs'][:op['unmark'] - 1]))
                     if op.get('drop_output') and len(om) > 1:
                         om.pop(next(iter(om)))
                     work.replace_subcircuit(sub, im, om)
@@ -415,7 +419,8 @@ def make_machine(tier, hooks):
               drop=st.integers(0, 9), seed=I)
         def replace_subcircuit(self, c, roots, grow, form, label_mode, drop, seed):
             self._do({'op': 'replace_subcircuit', 'c': c, 'roots': roots, 'grow': grow, 'form': form,
-                      'label_mode': label_mode, 'drop_output': drop == 0, 'seed': seed})
+                      'label_mode': label_mode, 'drop_output': drop == 0, 'seed': seed, 'unmark': drop % 3 if drop >= 6 else 0,
+                      'downstream': drop in (3, 4, 7, 8)})
 
         @rule(c=I, xs=st.lists(I, min_size=1, max_size=4), ins=st.lists(I, max_size=2), auto=st.booleans(),
               name=st.sampled_from(['B', 'N', 'S']), slice_=st.booleans(), all_inputs=st.booleans())
